@@ -4,9 +4,10 @@
   All theorems are about every reachable state / every execution of the transition system
   GIV.Model.ParCache: any number of goroutines, each running any finite list of `Do k` / `Get k`
   calls on any keys, under every interleaving of their map / atomic / mutex operations and of the
-  plain write and reads of `e.result`.
+  plain write and reads of `e.result`.  Progress (deadlock freedom, who blocks a `Do`, termination) is at
+  the end of the file; its lemmas are in GIV.Lemmas.ParCacheLive.
 -/
-import GIV.Lemmas.ParCacheRun
+import GIV.Lemmas.ParCacheLive
 namespace GIV.C10
 open GIV.ParCache
 
@@ -167,5 +168,193 @@ example : ∃ s, Reach exNilCfg s ∧ (decide (s.pc 0 = .dRet 0 ∧ (s.key 0).re
 
 example : ∃ s, Reach exNilCfg s ∧ (decide ((s.key 0).fcalls = 1 ∧ s.pc 0 = .exited ∧ s.pc 1 = .exited)) = true :=
   reach_of_run exNilCfg exNilTrace _ (by decide)
+
+/-! ### progress: every `Do` returns
+
+The model has a task for every natural number (`Cfg.prog : TaskId → List Op`, all tasks start at `init`),
+so "some task is enabled" alone is weak (an unstarted task always is) and "every execution is finite" is
+false (`terminates_statement_false`).  The theorems below are therefore stated per task, or for a set of
+tasks outside of which nothing has been started (the n goroutines of a scenario). -/
+
+/-- Deadlock freedom: in every reachable state in which some task has not finished its program, some
+task has an enabled step. -/
+theorem no_deadlock (c : Cfg) (s : State) (h : Reach c s) (hnf : ∃ t, s.pc t ≠ .exited) :
+    ∃ t e s', step c s t e = some s' :=
+  deadlock_free c s h hnf
+
+/-- Deadlock freedom of a closed system: if no task outside the set `A` has been started (e.g. `A` = the
+tasks `< n`), then as long as some task of `A` has not finished its program, some task OF `A` is enabled
+(`enabledTask` is the model's executable enabledness: `enabledTask_iff`). -/
+theorem no_deadlock_among (c : Cfg) (s : State) (h : Reach c s) (A : Nat → Prop)
+    (hA : ∀ t, ¬ A t → s.pc t = .init) (hnf : ∃ t, A t ∧ s.pc t ≠ .exited) :
+    ∃ t, A t ∧ ∃ e s', step c s t e = some s' := by
+  obtain ⟨t, hat, hen⟩ := deadlock_free_within c s h A hA hnf
+  exact ⟨t, hat, (enabledTask_iff c s t).1 hen⟩
+
+/-- Per-task progress: a task that has not exited has an enabled step itself, unless it is at the `Lock`
+of an entry whose mutex another task holds — and then that holder has an enabled step. -/
+theorem task_or_holder_enabled (c : Cfg) (s : State) (h : Reach c s) (t : Nat) (hx : s.pc t ≠ .exited) :
+    (∃ e s', step c s t e = some s') ∨
+    ∃ k hd, s.pc t = .dLock k ∧ (s.key k).owner = some hd ∧ hd ≠ t ∧ ∃ e s', step c s hd e = some s' := by
+  rcases task_progress c s h t hx with h1 | ⟨k, hd, hp, _, ho, hne, _, hen⟩
+  · exact Or.inl ((enabledTask_iff c s t).1 h1)
+  · exact Or.inr ⟨k, hd, hp, ho, hne, (enabledTask_iff c s hd).1 hen⟩
+
+/-- non-vacuity: task 0 is inside f, task 1 is blocked at `Lock`; some task has not exited, task 0 is enabled -/
+example : ∃ s, Reach exCfg s ∧ (decide (s.pc 0 = .dInF 0 (some ⟨0, 1⟩) ∧ s.pc 1 = .dLock 0 ∧
+    enabledTask exCfg s 1 = false ∧ enabledTask exCfg s 0 = true ∧ s.pc 2 = .init)) = true :=
+  reach_of_run exCfg (exTrace.take 13) _ (by decide)
+
+/-- A task blocked in `Do(k)` (no step of it is defined although it has not exited) is at the `Lock` of
+the entry of `k`; it is blocked only because ANOTHER task `hd` holds that entry's mutex; the holder is
+inside its critical section for the same key — at the done re-check, the call of f, inside f, the plain
+write, the atomic store or the `Unlock` (`Pc.inCS k`) —, the holder has an enabled step, and at most 6
+(at least 1) of its steps remain up to and including its `Unlock`. -/
+theorem do_blocked_only_by_computing_holder (c : Cfg) (s : State) (h : Reach c s) (t : Nat)
+    (hx : s.pc t ≠ .exited) (hb : ∀ e, step c s t e = none) :
+    ∃ k hd, s.pc t = .dLock k ∧ (s.key k).owner = some hd ∧ hd ≠ t ∧
+      (s.pc hd = .dLoad2 k ∨ s.pc hd = .dFEnter k ∨ (∃ v, s.pc hd = .dInF k v) ∨ (∃ v, s.pc hd = .dWrite k v) ∨
+        s.pc hd = .dStore k ∨ s.pc hd = .dUnlock k) ∧
+      (∃ e s', step c s hd e = some s') ∧ 1 ≤ (s.pc hd).csLeft ∧ (s.pc hd).csLeft ≤ 6 := by
+  have hb' : enabledTask c s t = false := by
+    cases hen : enabledTask c s t with
+    | false => rfl
+    | true =>
+      obtain ⟨e, s', hs⟩ := (enabledTask_iff c s t).1 hen
+      rw [hb e] at hs; exact absurd hs (by simp)
+  obtain ⟨k, hd, hp, ho, hne, hcs, hen, h1, h6⟩ := blocked_do c s h t hx hb'
+  refine ⟨k, hd, hp, ho, hne, ?_, (enabledTask_iff c s hd).1 hen, h1, h6⟩
+  cases hpc : s.pc hd <;> rw [hpc] at hcs <;> simp [Pc.inCS] at hcs <;> subst hcs <;> simp
+
+/-- the converse: the `Lock` of a free mutex is enabled — a `Do` is blocked ONLY while the mutex is held -/
+theorem lock_enabled_when_free (c : Cfg) (s : State) (t : Nat) (k : Nat) (hp : s.pc t = .dLock k)
+    (ho : (s.key k).owner = none) : ∃ s', step c s t (.lock k) = some s' := by
+  simp [step, hp, shapeOK_true, ho]
+
+example : ∃ s, Reach exCfg s ∧ (decide (s.pc 1 = .dLock 0 ∧ (s.key 0).owner = none ∧ enabledTask exCfg s 1 = true)) = true :=
+  reach_of_run exCfg (exTrace.take 19) _ (by decide)
+
+/-- non-vacuity: task 1 has no step at all (it is blocked at `Lock 0`), the holder 0 is at the plain write -/
+example : ∃ s, Reach exCfg s ∧ (decide (s.pc 1 = .dLock 0 ∧ enabledTask exCfg s 1 = false ∧
+    (s.key 0).owner = some 0 ∧ s.pc 0 = .dWrite 0 (some ⟨0, 1⟩) ∧ (s.pc 0).csLeft = 3)) = true :=
+  reach_of_run exCfg (exTrace.take 14) _ (by decide)
+
+/-- Bounded waiting: while the holder `hd` of the mutex of key `k` has not done its `Unlock k`, it keeps
+the mutex, and along ANY run (any interleaving with any other tasks) the steps it takes are bounded by
+`csLeft` of its program point at the start, minus the ≥ 1 still left — i.e. after at most 5 of its own
+steps (each of which is enabled: `do_blocked_only_by_computing_holder`) the holder is at its `Unlock`. -/
+theorem holder_unlocks_within (c : Cfg) (s s' : State) (h : Reach c s) (k hd : Nat)
+    (ho : (s.key k).owner = some hd) (evs : List (Nat × Event)) (hrun : runFrom c s evs = some s')
+    (hno : ∀ te ∈ evs, te ≠ (hd, Event.unlock k)) :
+    (s'.key k).owner = some hd ∧ evs.countP (fun te => te.1 == hd) + 1 ≤ (s.pc hd).csLeft ∧
+    evs.countP (fun te => te.1 == hd) ≤ 5 := by
+  obtain ⟨ho', hle⟩ := holder_bounded evs h ho hrun hno
+  have hr' := runFrom_reach h hrun
+  have := csLeft_pos_of_inCS (holdInv_reach hr' k hd ho')
+  have := csLeft_pos_of_inCS (holdInv_reach h k hd ho)
+  exact ⟨ho', by omega, by omega⟩
+
+/-- non-vacuity: from the state in which task 0 is about to re-check `done` under the mutex (csLeft = 6),
+it takes exactly 5 steps (interleaved with a step of task 1) without unlocking -/
+example : ∃ s, Reach exCfg s ∧ (decide ((s.key 0).owner = some 0 ∧ (s.pc 0).csLeft = 6 ∧
+    (match runFrom exCfg s ((exTrace.drop 10).take 6) with
+      | some s' => decide ((s'.key 0).owner = some 0 ∧ s'.pc 0 = .dUnlock 0 ∧ s'.pc 1 = .dLock 0)
+      | none => false) = true)) = true :=
+  reach_of_run exCfg (exTrace.take 10) _ (by decide)
+
+/-- Every step strictly decreases the remaining-steps bound of the task that takes it
+(`tmeas s t` = bound for the current call + 12 per `Do` and 4 per `Get` still to make + `exit`), leaves the
+bounds of all other tasks unchanged, and hence strictly decreases `measure s n = Σ_{t<n} tmeas s t` when
+the task is `< n`.  A blocked `Lock` attempt is not a step (`step` is undefined for it). -/
+theorem step_decreases (c : Cfg) (s s' : State) (t : Nat) (e : Event) (hs : step c s t e = some s') :
+    tmeas s' t < tmeas s t ∧ (∀ t', t' ≠ t → tmeas s' t' = tmeas s t') ∧
+    ∀ n, t < n → measure s' n < measure s n :=
+  ⟨(tmeas_step (step_sound hs)).1, (tmeas_step (step_sound hs)).2, fun n hn => (measure_step (step_sound hs) n).1 hn⟩
+
+example : ∃ s, Reach exCfg s ∧ (decide (measure s 2 = 31 ∧ tmeas s 0 = 13 ∧ tmeas s 1 = 18)) = true :=
+  reach_of_run exCfg [(0, .start)] _ (by decide)
+
+/-- at the end of the complete example run the measure is 0 -/
+example : ∃ s, Reach exCfg s ∧ (decide (measure s 2 = 0 ∧ s.pc 0 = .exited ∧ s.pc 1 = .exited)) = true :=
+  reach_of_run exCfg exTrace _ (by decide)
+
+/-- In every execution — every schedule, any number of other tasks — task `t` takes at most
+`2 + 12·#Do + 4·#Get` steps (`start`, `exit`, and the calls of its program). -/
+theorem task_steps_bounded (c : Cfg) (tr : List (Nat × Event)) (s : State) (h : Exec c tr s) (t : Nat) :
+    tr.countP (fun te => te.1 == t) ≤ 2 + restCost (c.prog t) := by
+  have := exec_task_steps h t
+  omega
+
+example : 2 + restCost (exCfg.prog 1) = 18 ∧ exTrace.countP (fun te => te.1 == 1) = 14 := by decide
+
+/-- the unrestricted termination statement: no infinite execution at all -/
+def terminates_statement : Prop :=
+  ∀ c : Cfg, ¬ ∃ (σ : Nat → State) (τ : Nat → Nat × Event), σ 0 = init0 c ∧
+    ∀ i, step c (σ i) (τ i).1 (τ i).2 = some (σ (i + 1))
+
+/-- … is FALSE for the model: it has a task for every natural number, and in the scenario in which no
+task makes any call the execution `start` of task 0, `start` of task 1, `start` of task 2, … is infinite. -/
+theorem terminates_statement_false : ¬ terminates_statement := by
+  intro h
+  exact h { prog := fun _ => [] }
+    ⟨startedUpTo, fun i => (i, .start), startedUpTo_zero, fun i => startedUpTo_step _ i⟩
+
+/-- Termination, for what is true of the model.
+(a) No infinite execution, from any state, in which only finitely many tasks (those `< n`) take steps.
+(b) In an infinite execution no single task takes infinitely many steps.
+(c) From a reachable state of the n-goroutine system (tasks `≥ n` not started) every run of the tasks
+`< n` has at most `measure s n` steps; a run that cannot be extended (no task `< n` enabled) ends with all
+n tasks exited — every maximal execution reaches the final state —; and such a run exists. -/
+theorem terminates_partial (c : Cfg) (n : Nat) :
+    (¬ ∃ (σ : Nat → State) (τ : Nat → Nat × Event),
+      ∀ i, (τ i).1 < n ∧ step c (σ i) (τ i).1 (τ i).2 = some (σ (i + 1))) ∧
+    (∀ t, ¬ ∃ (σ : Nat → State) (τ : Nat → Nat × Event),
+      (∀ i, step c (σ i) (τ i).1 (τ i).2 = some (σ (i + 1))) ∧ ∀ i, ∃ j, i ≤ j ∧ (τ j).1 = t) ∧
+    (∀ s, Reach c s → (∀ t, n ≤ t → s.pc t = .init) →
+      (∀ evs s', (∀ te ∈ evs, te.1 < n) → runFrom c s evs = some s' →
+        evs.length ≤ measure s n ∧
+        ((∀ t, t < n → ∀ e, step c s' t e = none) → ∀ t, t < n → s'.pc t = .exited)) ∧
+      ∃ evs s', (∀ te ∈ evs, te.1 < n) ∧ runFrom c s evs = some s' ∧ ∀ t, t < n → s'.pc t = .exited) := by
+  refine ⟨no_infinite_run c n, no_task_runs_forever c, ?_⟩
+  intro s hr hun
+  refine ⟨?_, can_finish c n _ s (Nat.le_refl _) hr hun⟩
+  intro evs s' hlt hrun
+  refine ⟨by have := run_measure n evs hrun hlt; omega, ?_⟩
+  intro hmax
+  apply maximal_final c s' (runFrom_reach hr hrun) n (run_unstarted n evs hrun hlt hun)
+  intro t ht
+  cases hen : enabledTask c s' t with
+  | false => rfl
+  | true =>
+    obtain ⟨e, s2, hs⟩ := (enabledTask_iff c s' t).1 hen
+    rw [hmax t ht e] at hs; exact absurd hs (by simp)
+
+/-- non-vacuity: the two-goroutine scenario; the bound is 32 steps, the example run has 28 and is maximal -/
+example : measure (init0 exCfg) 2 = 32 ∧ exTrace.length = 28 ∧ (∀ t, 2 ≤ t → (init0 exCfg).pc t = .init) ∧
+    (∀ te ∈ exTrace, te.1 < 2) ∧
+    (match runFrom exCfg (init0 exCfg) exTrace with
+      | some s' => decide (enabledTask exCfg s' 0 = false ∧ enabledTask exCfg s' 1 = false ∧ s'.pc 0 = .exited ∧ s'.pc 1 = .exited)
+      | none => false) = true := by
+  refine ⟨by decide, by decide, fun _ _ => rfl, by decide, by decide⟩
+
+/-- Every `Do` returns.  In every execution, for every task and key: as long as the task is not inside
+`Do k`, each of its `do-call k` events has been followed by its `do-return k _` event; and once the task
+has exited, it has made and returned from exactly the `Do k` calls of its program (each return carries the
+value of the one invocation of f: `do_returns_value`).  By `terminates_partial` (c) every maximal
+execution of an n-goroutine scenario ends in such a state. -/
+theorem every_do_returns (c : Cfg) (tr : List (Nat × Event)) (s : State) (h : Exec c tr s) (t k : Nat) :
+    ((s.pc t).inDo k = false → tr.countP (isDoReturn t k) = tr.countP (isDoCall t k)) ∧
+    (s.pc t = .exited → tr.countP (isDoReturn t k) = (c.prog t).countP (isDoOp k)) := by
+  obtain ⟨h1, h2⟩ := exec_do_balance h t k
+  constructor
+  · intro hn; simp [hn] at h1; omega
+  · intro hx
+    have hr := exited_rest h.reach t hx
+    simp [hx, Pc.inDo] at h1
+    simp [hr] at h2
+    omega
+
+example : (exCfg.prog 1).countP (isDoOp 0) = 1 ∧ exTrace.countP (isDoReturn 1 0) = 1 ∧
+    exTrace.countP (isDoCall 1 0) = 1 := by decide
 
 end GIV.C10
